@@ -16,6 +16,9 @@ def declare(spec):
                       ("change_state_classchange", {"node": "obj:Node", "ind": "obj:Individual"})]:
         add(spec, "StateTracker." + m, types=params, modifies=TRK_MOD, assumed=True, allocates=True,
             note="a tracker writes only its own state")
+    add(spec, "StateTracker.timestamp", modifies=TRK_MOD, assumed=True, allocates=True,
+        note="verified per tracker in the C17 units")
+    add(spec, "StateTracker.hash_state", returns="val", modifies=[], assumed=True, allocates=True)
     for m, params in [("action_at_attach_server", {"node": "obj:Node", "server": "obj:Server", "individual": "obj:Individual"}),
                       ("action_at_blockage", {"individual": "obj:Individual", "next_node": "obj:Node"}),
                       ("action_at_detatch_server", {"server": "obj:Server"}),
